@@ -710,12 +710,12 @@ class DictForm:
                 self.apply(5, "environments/empty-list-accepted", "network.environments", path,
                            lambda t, k=k: t.__setitem__(k, []), "%r = []" % k)
                 for i in range(len(envs) + 1):
-                    m = envs[:i] + ["default"] + envs[i:]
+                    m = envs[:i] + [gen.fresh("default")] + envs[i:]       # (a run-time string, as a JSON reader hands it over)
                     self.apply(5, "environments/default-name-accepted", "network.environments", path,
                                lambda t, k=k, m=m: t.__setitem__(k, list(m)), "%r = %r" % (k, m))
                 for i in range(len(envs)):
                     m = list(envs)
-                    m[i] = "default"
+                    m[i] = gen.fresh("default")
                     self.apply(5, "environments/default-name-accepted", "network.environments", path,
                                lambda t, k=k, m=m: t.__setitem__(k, list(m)), "%r = %r" % (k, m), only=("network",))
                 sp = d.get("species", [])
@@ -1016,8 +1016,8 @@ def class45_objects(cx, st, r, desc, P, O, thorough):
                  lambda: setattr(script, "init_state_processing", v), key=[v, "set"], state=lambda: deep(script))
     envs = list(desc["envs"])
     lists = [("environments/empty-list-accepted", [])] + \
-        [("environments/default-name-accepted", envs[:i] + ["default"] + envs[i:]) for i in range(len(envs) + 1)] + \
-        [("environments/default-name-accepted", with_index(envs, i, "default")) for i in range(len(envs))]
+        [("environments/default-name-accepted", envs[:i] + [gen.fresh("default") if i % 2 else "default"] + envs[i:]) for i in range(len(envs) + 1)] + \
+        [("environments/default-name-accepted", with_index(envs, i, gen.fresh("default") if i % 2 == 0 else "default")) for i in range(len(envs))]
     for what, m in lists:
         for form, conv in (("list", list), ("tuple", tuple)):
             mm = conv(m)
@@ -1355,6 +1355,14 @@ def sweep_species(cx, A, r, thorough):
                 A.restore()
         cx.judge(7, "species/unknown-species-accepted", "RDNetwork.get_species_index", "network.get_species_index(%s) (%s)" % (stxt, form),
                  lambda: net.get_species_index(s), key=False, ok_return=lambda v: v is None, form=form)
+    # a reaction handed over as an object that names a species the network does not have (apply_reaction resolves its argument
+    # against the network: an unknown label, or a species outside it, is an unknown species all the same)
+    for eq in ("%s -> Zq9" % A.labels[0], "%s + Zq9 -> %s" % (A.labels[0], A.labels[-1]), "Zq9 -> "):
+        snap = light(c)
+        cx.judge(7, "species/unknown-species-accepted", "RDSystem.apply_reaction", "system.apply_reaction(Reaction(%r)); the network has %r" % (eq, A.labels),
+                 lambda: c.apply_reaction(st.Reaction(eq), position=0, update=True), key=["apply_reaction object", eq], state=lambda: light(c))
+        if light(c) != snap:
+            A.restore()
     if (deep(system), deep(tr)) != before:
         cx.add(7, "state-changed/species-sweep", "system / trajectory", repro="after the sweep of unknown species")
 
